@@ -2,6 +2,7 @@
 mod cfam;
 mod drive;
 mod indep;
+mod mfam;
 mod model;
 mod qfam;
 mod refm;
@@ -30,6 +31,8 @@ fn main() {
         "C14" => run_check(&cfam::C14, &args),
         "C18" => run_check(&tfam::C18, &args),
         "C19" => run_check(&tfam::C19, &args),
+        "C15" => run_check(&mfam::C15, &args),
+        "C17" => run_check(&mfam::C17, &args),
         "C06" => run_check(&wfam::C06, &args),
         "C07" => run_check(&wfam::C07, &args),
         "C08" => run_check(&wfam::C08, &args),
